@@ -291,6 +291,21 @@ func init() {
 					}
 				}
 				v := gen.Value(rv, t, 3, vo)
+				if k == per-1 && c.Idx%16 == 0 {
+					// the whole edge-string table, deterministically: as elements, as members with and
+					// without omitempty and behind interface{} (,string on strings is the string-opt feature)
+					type strRow struct {
+						A string `json:"a"`
+						O string `json:"o,omitempty"`
+							I any    `json:"i"`
+					}
+					rows := make([]strRow, len(gen.Strs))
+					for i, x := range gen.Strs {
+						rows[i] = strRow{x, x, x}
+					}
+					t, feat = reflect.TypeOf(rows), ""
+					v = reflect.ValueOf(rows)
+				}
 				c.Obs("types:"+featTag(feat), 1)
 				if !c.Cur(k, curDesc(t, feat, v.Interface(), "")) {
 					continue
